@@ -4,6 +4,7 @@ functions, grid set-up and the lifecycle — assembled into `runChecked_ok`: for
 library precondition is violated and no freed object is used, for all draws and all call histories.
 -/
 import Strengths.Proofs.CheckedGrid
+import Strengths.Proofs.CheckedGraph
 import Strengths.Model.CheckedSim
 
 namespace Strengths
@@ -265,6 +266,77 @@ theorem setupGridC_ok (a : EngArgs) (g : GridShape) (vol h : Rat) (hv : ValidGri
   refine Ok.bind hstep (fun smp hsmp => ?_)
   exact Ok.pure ⟨⟨hT, ⟨fun _ => 6, nbG g, hL, hscr⟩, hx0, hsmp, conds_grid⟩, rfl⟩
 
+/-! ### graph set-up -/
+
+/-- what `LibRDEngine._setup_graph` guarantees about the buffers (lengths), `RDSystem` about environment indices, and —
+part of ValidScript, not checked by the package — that edge endpoints are node indices -/
+structure ValidGraphArgs (a : EngArgs) (ga : GraphArgs) : Prop where
+  edgeI : ga.nEdges ≤ ga.edgeI.size
+  edgeJ : ga.nEdges ≤ ga.edgeJ.size
+  edgeIRange : ∀ k, k < ga.nEdges → 0 ≤ ga.edgeI.get k ∧ ga.edgeI.get k < (ga.n : Int)
+  edgeJRange : ∀ k, k < ga.nEdges → 0 ≤ ga.edgeJ.get k ∧ ga.edgeJ.get k < (ga.n : Int)
+  sfc : ga.nEdges ≤ ga.edgeSfc.size
+  dst : ga.nEdges ≤ ga.edgeDst.size
+  vol : ga.n ≤ ga.vol.size
+  state : ga.n * a.ns ≤ a.state.size
+  chstt : ga.n * a.ns ≤ a.chstt.size
+  env : ga.n ≤ a.env.size
+  envRange : ∀ i, i < ga.n → 0 ≤ a.env.get i ∧ a.env.get i < (a.nenv : Int)
+  k : a.nenv * a.nr ≤ a.k.size
+  sub : a.ns * a.nr ≤ a.sub.size
+  sto : a.ns * a.nr ≤ a.sto.size
+  D : a.ns * a.nenv ≤ a.D.size
+  sampleT : a.sampleN ≤ a.sampleT.size
+  process : ∀ v, (a.process v).size = v.size
+
+theorem setupGraphC_ok (a : EngArgs) (ga : GraphArgs) (hv : ValidGraphArgs a ga) :
+    Ok (setupGraphC a ga) (fun S => SimOK S ∧ S.T.n * S.T.ns = ga.n * a.ns) := by
+  unfold setupGraphC
+  simp only []
+  refine Ok.bind (mkVec_ok ga.edgeI _ hv.edgeI) (fun ei hei => ?_)
+  refine Ok.bind (mkVec_ok ga.edgeJ _ hv.edgeJ) (fun ej hej => ?_)
+  refine Ok.bind (mkVec_ok ga.edgeSfc _ hv.sfc) (fun sfc hsfc => ?_)
+  refine Ok.bind (mkVec_ok ga.edgeDst _ hv.dst) (fun dst hdst => ?_)
+  refine Ok.bind (mkVec_ok a.state _ hv.state) (fun st0 hst0 => ?_)
+  refine Ok.bind (speciesFirstToMeshFirst_ok (a.process st0) a.ns ga.n (by rw [hv.process]; exact hst0.1)) (fun x0 hx0 => ?_)
+  refine Ok.bind (mkVec_ok a.chstt _ hv.chstt) (fun ch0 hch0 => ?_)
+  refine Ok.bind (speciesFirstToMeshFirst_ok ch0 a.ns ga.n hch0.1) (fun ch hch => ?_)
+  refine Ok.bind (mkVec_ok a.env _ hv.env) (fun env henv => ?_)
+  refine Ok.bind (mkVec_ok ga.vol _ hv.vol) (fun vol hvol => ?_)
+  refine Ok.bind (mkVec_ok a.k _ hv.k) (fun k hk => ?_)
+  refine Ok.bind (mkVec_ok a.sub _ hv.sub) (fun sub hsub => ?_)
+  refine Ok.bind (mkVec_ok a.sto _ hv.sto) (fun sto hsto => ?_)
+  refine Ok.bind (mkVec_ok a.D _ hv.D) (fun D hD => ?_)
+  refine Ok.bind (mkVec_ok a.sampleT _ hv.sampleT) (fun ts hts => ?_)
+  have heiOK : EndsOK ga.n ga.nEdges ei := ⟨hei.1, fun k hk => by rw [hei.2 k hk]; exact hv.edgeIRange k hk⟩
+  have hejOK : EndsOK ga.n ga.nEdges ej := ⟨hej.1, fun k hk => by rw [hej.2 k hk]; exact hv.edgeJRange k hk⟩
+  refine Ok.bind (setNeighbors_ok ga.n ga.nEdges ei ej sfc dst heiOK hejOK hsfc.1 hdst.1) (fun nb hnb => ?_)
+  have henvOK : EnvOK env ga.n a.nenv := ⟨henv.1, fun i hi => by rw [henv.2 i hi]; exact hv.envRange i hi⟩
+  refine Ok.bind (buildMeshKr_ok ga.n a.ns a.nr a.nenv env sub k _ henvOK hsub.1 hk.1
+    (fun i hi => Ok.mono (Vec.rd_nat vol i (by rw [hvol.1]; exact hi)) (fun _ _ => trivial))) (fun kr hkr => ?_)
+  refine Ok.bind (buildMeshKdGraph_ok ga.n a.ns a.nenv nb hnb env henvOK vol hvol.1 D hD.1 ga.cbrt) (fun kd hkd => ?_)
+  refine Ok.bind (nestedInit_ok ga.n a.ns nb hnb (0 : Int)) (fun mnd hmnd => ?_)
+  refine Ok.bind (nestedInit_ok ga.n a.ns nb hnb (0 : Rat)) (fun mad hmad => ?_)
+  let T : Tabs := { n := ga.n, ns := a.ns, nr := a.nr, nenv := a.nenv, chstt := ch, sub := sub, sto := sto, kr := kr }
+  let G : GraphTabs := GraphTabs.ofParts nb kd
+  have hT : TabsOK T := ⟨hch, hsub.1, hsto.1, hkr⟩
+  have hG : GraphOK T G := ⟨hnb, hkd⟩
+  have hL := graphLayout_ok hG
+  have hscr : ScratchOK T (graphLayout G) (fun i => (G.nidx.get i).size)
+      (scratchInit a.option ga.n a.ns a.nr (.nested mnd) (.nested mad)) := by
+    unfold scratchInit
+    split
+    · exact .euler _ (Nat.mul_comm a.ns ga.n)
+    · exact .tau _ (Nat.mul_comm a.nr ga.n) (graphSlotOK hG mnd hmnd.1 hmnd.2)
+    · exact .gil _ ⟨Nat.mul_comm a.nr ga.n, rfl, rfl, graphSlotOK hG mad hmad.1 hmad.2⟩
+  have hsmp0 : SmpOK (freshSampler a ts) (ga.n * a.ns) := ⟨hts.1, rfl, fun k hk => by
+    have : k < 0 := hk
+    omega⟩
+  have hstep := samplingStep_ok hsmp0 x0 hx0
+  rw [← conds_graph] at hstep
+  refine Ok.bind hstep (fun smp hsmp => ?_)
+  exact Ok.pure ⟨⟨hT, ⟨_, nbGraph G, hL, hscr⟩, hx0, hsmp, conds_graph⟩, rfl⟩
+
 /-! ### lifecycle of one engine object: the assembled theorem -/
 
 /-- a world is fine when, unless `global_algo_freed`, the current pointer is a live valid object and the wrapper's
@@ -275,6 +347,7 @@ def WOK (w : CWorld) : Prop :=
 /-- ValidScript, per call: only `setup` carries data -/
 def ValidCall : CCall → Prop
   | .setupGrid a g _ _ sz => ValidGridArgs a g ∧ sz = g.size * a.ns
+  | .setupGraph a ga sz => ValidGraphArgs a ga ∧ sz = ga.n * a.ns
   | _ => True
 
 theorem boot_wok : WOK CWorld.boot := by intro h; cases h
@@ -300,6 +373,12 @@ theorem call_ok (o : Oracles) (w : CWorld) (c : CCall) (hw : WOK w) (hc : ValidC
     obtain ⟨hva, hsz⟩ := hc
     show Ok (setupGridC a g vol h >>= fun S => .ok { cur := .live S, freed := false, stateSize := sz }) WOK
     refine Ok.bind (setupGridC_ok a g vol h hva) (fun S hS => Ok.pure ?_)
+    intro _
+    exact ⟨S, rfl, hS.1, by rw [hsz, hS.2]⟩
+  | setupGraph a ga sz =>
+    obtain ⟨hva, hsz⟩ := hc
+    show Ok (setupGraphC a ga >>= fun S => .ok { cur := .live S, freed := false, stateSize := sz }) WOK
+    refine Ok.bind (setupGraphC_ok a ga hva) (fun S hS => Ok.pure ?_)
     intro _
     exact ⟨S, rfl, hS.1, by rw [hsz, hS.2]⟩
   | finalize =>
@@ -338,7 +417,7 @@ theorem call_ok (o : Oracles) (w : CWorld) (c : CCall) (hw : WOK w) (hc : ValidC
   | getProgress =>
     exact live_case (fun S => .ok S) (fun S hS _ => Ok.pure ⟨hS, rfl⟩)
 
-/-- ASSEMBLY (grid, all three algorithms): for every history of calls on one engine object whose set-ups carry valid
+/-- ASSEMBLY (grid and graph, all six algorithms): for every history of calls on one engine object whose set-ups carry valid
 arguments, for all draws, no vector access is out of range, no `std::poisson_distribution` precondition is violated,
 and no null / freed object is used or deleted twice -/
 theorem runChecked_ok (o : Oracles) (h : List CCall) (w : CWorld) (hw : WOK w) (hv : ∀ c ∈ h, ValidCall c) :
